@@ -43,24 +43,24 @@ def cleanup_spec_dir():
                 pass
 
 
-def check_models(ctx, cfgs, what, workers=4):
-    """E1.  thorough: ctx.check_model (TLC -coverage: fails on a vacuous run).  quick: the same model checking without the
-    coverage instrumentation (it costs ~5x the whole run on this functional-style spec); a violated invariant is reported
-    exactly as check_model does."""
+def check_models(ctx, cfg, what, label, workers=4, min_states=500):
+    """E1: ONE TLC run over a set of configurations (MCInit has one initial state per configuration; see the Set_* definitions in
+    MCTaskSet.tla).  thorough: ctx.check_model (TLC -coverage: fails on a vacuous run).  quick: the same model checking without
+    the coverage instrumentation (it multiplies the run time of this functional-style spec by 5); a violated invariant is
+    reported exactly as check_model does."""
     if os.environ.get('VERIF_TS_SKIP_E1'):     # mutation campaigns on the C++ code: the model runs do not depend on the code
         return
-    for cfg, label in cfgs:
-        if ctx.tier == 'thorough':
-            ctx.check_model(SPEC, 'MCTaskSet.tla', cfg, what, label=label, workers=workers, vacuity_exempt=VAC,
-                            extra=['-noGenerateSpecTE'], timeout=3000)
-            continue
-        res = ctx.tlc(SPEC, 'MCTaskSet.tla', cfg, workers=workers, label=label, extra=['-noGenerateSpecTE'], timeout=1500)
-        if res.violation:
-            path = ctx.save_replay('%s-MCTaskSet-%s.txt' % (ctx.prop, cfg.replace('.cfg', '')),
-                                   'TLC %s on MCTaskSet.tla/%s\n\n%s' % (res.violation, cfg, res.counterexample()))
-            ctx.violation('model:MCTaskSet.tla:%s:%s' % (cfg, res.violation), what + ': ' + res.violation, path)
-        elif res.distinct < 20:
-            raise vlib.ToolError('vacuous model run MCTaskSet.tla/%s: %d states' % (cfg, res.distinct))
+    if ctx.tier == 'thorough':
+        ctx.check_model(SPEC, 'MCTaskSet.tla', cfg, what, label=label, workers=workers, vacuity_exempt=VAC,
+                        extra=['-noGenerateSpecTE'], timeout=3000)
+        return
+    res = ctx.tlc(SPEC, 'MCTaskSet.tla', cfg, workers=workers, label=label, extra=['-noGenerateSpecTE'], timeout=1500)
+    if res.violation:
+        path = ctx.save_replay('%s-MCTaskSet-%s.txt' % (ctx.prop, cfg.replace('.cfg', '')),
+                               'TLC %s on MCTaskSet.tla/%s\n\n%s' % (res.violation, cfg, res.counterexample()))
+        ctx.violation('model:MCTaskSet.tla:%s:%s' % (cfg, res.violation), what + ': ' + res.violation, path)
+    elif res.distinct < min_states:
+        raise vlib.ToolError('vacuous model run MCTaskSet.tla/%s: %d states' % (cfg, res.distinct))
 
 
 def expect_model_violation(ctx, cfg, invariant, what, label):
@@ -118,14 +118,19 @@ VAC = ('A_GateSync', 'A_GateAwait', 'A_TsExcCas', 'A_TsExcStoreSet', 'A_TsExcSto
        'A_TsPkgInc', 'Fire', 'Commit', 'MCInit')
 
 
-def run_scenarios(ctx, exe, scens, what, n, seed, label, unfixed=False, pct=-1, maxsteps=15000, report=True,
-                  cfg='TaskSetTrace.cfg'):
-    """n random controlled executions of every scenario; every trace is validated by TLC.  Executions that do not
-    terminate (deadlock / step bound) and rejected traces are re-run once and reported only if they repeat.
-    Returns dict(traces=[...], executions=, completed=, violations=[(kind, detail)])"""
-    out = {'traces': [], 'executions': 0, 'completed': 0, 'problems': []}
-    tag = re.sub(r'[^A-Za-z0-9]+', '_', label)[:40]
-    sf = os.path.join(ctx.work, 'scen_%s.txt' % tag)
+def run_scenarios(ctx, exe, families, what, seed, unfixed=False, pct=-1, maxsteps=15000, report=True, cfg='TaskSetTrace.cfg'):
+    """families: [(label, [scenario, ...], executions per scenario)].  ALL of them go into one driver run and one TLC trace
+    validation (a JVM start costs seconds).  Executions that do not terminate (deadlock / step bound) and rejected traces are
+    re-run once and reported only if they repeat.  Returns dict(traces, executions, completed, problems, per_family)."""
+    out = {'traces': [], 'executions': 0, 'completed': 0, 'problems': [], 'per_family': {}}
+    scens, fam_of = [], []
+    for label, fs, n in families:
+        for sc in fs:
+            scens.append('n=%d;%s' % (n, sc))
+            fam_of.append(label)
+        out['per_family'][label] = len(fs) * n
+    label = '+'.join(f[0] for f in families)
+    sf = os.path.join(ctx.work, 'scenarios.txt')
     with open(sf, 'w') as f:
         f.write('\n'.join(scens) + '\n')
     for attempt in (0, 1):
@@ -136,9 +141,9 @@ def run_scenarios(ctx, exe, scens, what, n, seed, label, unfixed=False, pct=-1, 
         traces = []
         execs = comp = 0
         while first < len(scens):
-            tr = os.path.join(ctx.work, 'tr_%s_%d_%d.ndjson' % (tag, attempt, part))
+            tr = os.path.join(ctx.work, 'trace_%d_%d.ndjson' % (attempt, part))
             part += 1
-            args = ['--out', tr, '--scenfile', sf, '--first', first, '--random', n, '--seed', seed, '--maxsteps', maxsteps]
+            args = ['--out', tr, '--scenfile', sf, '--first', first, '--random', 1, '--seed', seed, '--maxsteps', maxsteps]
             if pct >= 0:
                 args += ['--pct', pct]
             if unfixed:
@@ -166,12 +171,12 @@ def run_scenarios(ctx, exe, scens, what, n, seed, label, unfixed=False, pct=-1, 
                     path = ctx.save_replay('%s-%s.txt' % (ctx.prop, kind),
                                            'scenario %s\nseed %s\nthe controlled execution did not terminate: %s after %s steps\n\n%s' %
                                            (scens[si], inc.group(2), kind, inc.group(4), ctx._trace_context(tr, nl)))
-                    ctx.violation('%s:%s' % (kind, scens[si]), '%s: execution never completes (%s) [%s]' % (what, kind, label), path)
+                    ctx.violation('%s:%s' % (kind, scens[si]), '%s: execution never completes (%s) [%s]' % (what, kind, fam_of[si]), path)
             if os.path.getsize(tr) == 0:
                 first = nxt
                 continue
-            res = ctx.validate(SPEC, 'TaskSetTrace.tla', cfg, tr, what + ' [' + label + ']',
-                               executions=tot.get('completed', 0), label=label, report=final and report, timeout=1500)
+            res = ctx.validate(SPEC, 'TaskSetTrace.tla', cfg, tr, what, executions=tot.get('completed', 0), label=label,
+                               report=final and report, timeout=1500)
             if res.violation:
                 problems.append(('trace', '%s at line %s of %s' % (res.violation, res.rejected_line or res.depth, tr)))
             traces.append(tr)
@@ -180,6 +185,7 @@ def run_scenarios(ctx, exe, scens, what, n, seed, label, unfixed=False, pct=-1, 
         cleanup_spec_dir()
         if not problems:
             break
+    ctx.cov.setdefault('executions', {}).update(out['per_family'])
     return out
 
 
